@@ -54,6 +54,7 @@ pub fn is_readonly(op: &Op) -> bool {
             | Op::Views
             | Op::ToVec
             | Op::Cmp(..)
+            | Op::CmpCap(..)
             | Op::EqSlice(_)
             | Op::Dbg(_)
             | Op::CloneBuf(false)
